@@ -40,7 +40,10 @@ def apply_edit(root, m):
     with open(path, "w", encoding="utf-8") as f:
         f.write(src)
     try:
-        compile(src, path, "exec")
+        import warnings
+        with warnings.catch_warnings():
+            warnings.simplefilter("ignore")
+            compile(src, path, "exec")
     except SyntaxError as e:
         return f"edited file does not compile: {e}"
     return None
